@@ -2,8 +2,12 @@ package props
 
 import (
 	"fmt"
+	"github.com/IBM/fluent-forward-go/fluent/client"
 	"math/rand"
+	"strings"
+	"sync/atomic"
 	"time"
+	"verif/harness/fakes"
 
 	"verif/harness/core"
 )
@@ -114,6 +118,7 @@ func C14(c *core.Ctx) {
 	// (c) the same operations running freely under the race detector
 	if !fine {
 		raceStress(c, c.N(150, 3000))
+		c14SlowDial(c)
 	}
 }
 
@@ -146,5 +151,51 @@ func raceStress(c *core.Ctx, iters int) {
 		if run.stuck {
 			c.Violation("deadlock", "c14-stuck", "free-running stress did not finish within 5 s", nil)
 		}
+	}
+}
+
+// c14SlowDial: a factory whose New() takes several times the client's timeout and then succeeds (a slow TLS
+// handshake, a proxy).  Whatever Connect / Reconnect answer, every connection the factory hands out has to be
+// closed exactly once by the time the client has been disconnected, and no two may be open at once.
+func c14SlowDial(c *core.Ctx) {
+	for _, op := range []string{"Connect", "Connect;Connect", "Reconnect"} {
+		f := &fakes.Factory{FailOn: map[int]bool{}}
+		slow := int32(1)
+		f.Hook = func(string) {
+			if atomic.LoadInt32(&slow) == 1 {
+				time.Sleep(120 * time.Millisecond)
+			}
+		}
+		cl := client.New(client.ConnectionOptions{Factory: f, ConnectionTimeout: 30 * time.Millisecond})
+		var errs []string
+		for _, step := range strings.Split(op, ";") {
+			var err error
+			if step == "Connect" {
+				err = cl.Connect()
+			} else {
+				err = cl.Reconnect()
+			}
+			errs = append(errs, fmt.Sprint(err))
+		}
+		time.Sleep(300 * time.Millisecond) // every dial that was started has returned by now
+		atomic.StoreInt32(&slow, 0)
+		open := 0
+		for _, cn := range f.All() {
+			if cn.NumCloses() == 0 {
+				open++
+			}
+		}
+		replay := map[string]interface{}{"calls": op, "results": errs, "dials": f.NumCalls()}
+		if open > 1 {
+			c.Violation("judge-go", "c14-two-open", fmt.Sprintf("%d connections obtained from the factory are open at the same time after %s against a slow factory", open, op), replay)
+		}
+		_ = cl.Disconnect()
+		for i, cn := range f.All() {
+			if n := cn.NumCloses(); n != 1 {
+				c.Violation("judge-go", "c14-close-count", fmt.Sprintf("connection %d obtained from a slow factory was closed %d times after %s and a final Disconnect", i, n, op), replay)
+			}
+		}
+		c.Eval()
+		c.Hist("slow factory: " + op)
 	}
 }
